@@ -211,7 +211,10 @@ func (a *basicDownloadAdapter) download(t *Transfer, cb ProgressCallback, authOk
 				// If status code was 200 then server just ignored Range header and
 				// sent everything. Don't re-request, use this one from byte 0
 			} else {
-				// re-request needed
+				// re-request needed; be done with this response
+				// first, so that only one transfer of the object
+				// is in progress
+				res.Body.Close()
 				return a.download(t, cb, authOkFunc, dlFile, fromByte, hash)
 			}
 		}
